@@ -122,6 +122,8 @@ impl Property for C11 {
             rng.range(0, if tier == Tier::Thorough { 20 } else { 10 })
         };
         let mut vals: Vec<Val> = Vec::new();
+        // one scenario in fifteen: deeply nested records, mostly pretty-printed
+        let deep = !very_long && !long && rng.chance(1, 15);
         // one scenario in twelve: every record is built from one cluster of look-alikes
         let cluster: Option<Vec<Val>> = if !very_long && rng.chance(1, 12) { Some(gen_cluster(rng)) } else { None };
         // one scenario in a hundred has one record of more than a MiB (whatever is reused from
@@ -201,6 +203,20 @@ impl Property for C11 {
             } else if long && rng.chance(1, 2) {
                 // small values with many empty containers
                 gen_val(rng, 2, false)
+            } else if deep {
+                // values nested 9..40 deep (arrays and objects in turn, with siblings on the
+                // way down): whatever a printer keeps per depth meets the same depth again
+                let d = rng.range(9, 40);
+                let mut v = gen_scalar(rng, false);
+                for k in 0..d {
+                    v = match rng.below(4) {
+                        0 => Val::Arr(vec![v]),
+                        1 => Val::Arr(vec![Val::Int(k as i128), v]),
+                        2 => Val::Obj(vec![("k".into(), v)]),
+                        _ => Val::Obj(vec![("a".into(), Val::Str("x".into())), ("k".into(), v)]),
+                    };
+                }
+                v
             } else {
                 gen_record(rng, i as u32, false)
             };
@@ -224,6 +240,16 @@ impl Property for C11 {
             }
         }
         case.opts = pipe.opts;
+        if deep {
+            case.opts = match rng.below(3) {
+                0 => vec![],
+                1 => vec![vec!["--select".into(), ".=v".into()]],
+                _ => vec![vec!["--select".into(), "(stringify .)=s".into()], vec!["--select".into(), ".=v".into()]],
+            };
+            if rng.chance(2, 3) {
+                case.opts.push(vec!["--style=pretty".into()]);
+            }
+        }
         if very_long {
             case.set("fresh_thread", 1);
         }
